@@ -46,7 +46,7 @@ def list_harnesses(prefix):
         # direct harnesses
         for m in re.finditer(r'#\[kani::proof\][^\n]*\n(?:\s*#\[[^\n]*\n)*\s*fn (\w+)\(', src): names.append(m.group(1))
         # macro-instantiated harnesses:  some_macro!(harness_name, ...)
-        for m in re.finditer(r'^\w+!\((\w+),', src, re.M): names.append(m.group(1))
+        for m in re.finditer(r'^\w+!\(\s*(\w+),', src, re.M): names.append(m.group(1))
     return sorted(set(n for n in names if n.startswith(prefix)))
 
 def playback(harness, features=None, timeout=900):
